@@ -22,16 +22,18 @@ pub(crate) fn parse_uri<R: Read>(scanner: &mut Scanner<R>) -> Result<Uri, Error>
         if scanner.cur == b'\\' {
             let next = scanner.peek()?;
             match next {
-                b':' | b'/' | b'?' | b'#' | b'\\' => {
+                b':' | b'/' | b'?' | b'#' => {
                     str.push(scanner.cur);
                     str.push(next);
                     scanner.read()?;
                 }
-                b'[' | b']' | b'@' | b'`' | b'&' | b'=' | b';' => {
+                b'[' | b']' | b'@' | b'`' | b'&' | b'=' | b';' | b'\\' => {
                     str.push(next);
                     scanner.read()?;
                 }
                 _ => {
+                    // Move to the 'u' of the unicode escape
+                    scanner.read()?;
                     let unicode = parse_str_unicode_escape(scanner)?;
                     str.extend_from_slice(unicode.as_bytes());
                 }
